@@ -74,6 +74,14 @@ def density_case(ctx, rng, idx):
     ybar = scale * rng.uniform(0.2, 3.0, size=n)
     if cname == 'GaussianErrorModel' and rng.random() < 0.5:
         ybar = ybar * rng.choice([-1, 1], size=n)
+    if cname == 'ConstantAndMultiplicativeGaussianErrorModel' and \
+            rng.random() < 0.3:
+        # outputs below zero (change from baseline) with a standard
+        # deviation sigma_base + sigma_rel * output that is still positive:
+        # the documented density is defined there
+        neg = rng.random(n) < 0.5
+        ybar = np.where(neg, -rng.uniform(0.05, 0.8, size=n) * full[0] /
+                        full[1], ybar)
     # observations in a plausible range around the outputs
     if cname == 'LogNormalErrorModel':
         y = ybar * np.exp(full[0] * rng.normal(size=n))
